@@ -49,6 +49,15 @@ inductive Op where
   | raiseAttr
 deriving DecidableEq, Repr
 
+/-- the test with which the `LocalStack` branch of `LocalProxy.__init__` decides that nothing is
+bound (`if <test>: raise RuntimeError(unbound_message)` on `obj = local.top`) -/
+inductive ProxyTest where
+  /-- `obj is None` -/
+  | isNone
+  /-- `not obj`: would also reject every falsy bound object -/
+  | falsy
+deriving DecidableEq, Repr
+
 /-- one control-flow path through a method body (branch conditions appear as `assume…`) -/
 abbrev Path := List Op
 
